@@ -28,7 +28,7 @@ lower-case identifier of the helper body that is a local of the caller; an argum
 """
 import re
 from .lex import Code, apply_edits, OPEN
-from .passes import Unsupported
+from .passes import Unsupported, if_body_open
 from .rules import rewrite, split_args
 
 KEYWORDS = {"let", "mut", "if", "else", "match", "loop", "while", "for", "in", "return", "break", "continue", "fn", "as",
@@ -192,10 +192,7 @@ def eliminate_returns(body):
                 out.append(c.slice(a + 1, e).strip())
                 return "{ " + "\n".join(out) + " }"
             if c.t(a) == "if":
-                hb = a + 1
-                while c.t(hb) != "{":
-                    if c.t(hb) in ("(", "["): hb = c.close(hb)
-                    hb += 1
+                hb = if_body_open(c, a)
                 he = c.close(hb)
                 if c.t(he + 1) == "else":
                     return None
@@ -223,6 +220,46 @@ def eliminate_returns(body):
         return None
     r = conv(c, 0)
     return r if r is not None else body
+
+
+def eliminate_option_try(body, ret_type):
+    """in a helper returning `Option<_>`:  `{ S..; let PAT = E?; REST }`  ->  `{ S..; match E { Some(PAT) => { REST }, None => None } }`
+    (what `?` on an Option means), repeatedly, for `let` statements of the body's top level whose initialiser ends in `?`"""
+    from .raii import _block_statements
+    if not re.match(r"^(\w+::)*Option<", ret_type or ""):
+        return body
+    for _ in range(8):
+        c = Code(body)
+        stmts = _block_statements(c, 0)
+        hit = None
+        for (a, b) in stmts:
+            if c.t(a) != "let":
+                continue
+            e = b - 1 if c.t(b - 1) == ";" else b
+            if c.t(e - 1) != "?" or c.kind(e - 1) != "p":
+                continue
+            eq = a + 1
+            while eq < e and c.t(eq) != "=":
+                if c.t(eq) in OPEN: eq = c.close(eq)
+                eq += 1
+            if eq >= e:
+                continue
+            # no other `?` before this statement at top level and none inside this initialiser
+            if any(c.t(q) == "?" and c.kind(q) == "p" for q in range(eq + 1, e - 1)):
+                continue
+            hit = (a, b, eq, e)
+            break
+        if not hit:
+            return body
+        a, b, eq, e = hit
+        cb = c.close(0)
+        pat = c.slice(a + 1, eq).strip()
+        if ":" in pat:
+            pat = pat.split(":")[0].strip()
+        init = c.slice(eq + 1, e - 1).strip()
+        rest = c.text[c.pos(b):c.pos(cb)]
+        body = c.text[:c.pos(a)] + "match %s { Some(%s) => { %s }, None => None }\n" % (init, pat, rest) + c.text[c.pos(cb):]
+    return body
 
 
 def _let_names(c, a, b):
@@ -287,6 +324,10 @@ def rule_inline(text, helpers, fns, caller_item, caller_owner, caller_generics, 
         if count[0] > 12:
             raise Unsupported("inline: too many expansions (recursion?)")
         is_async, gens, self_kind, params, body = _sig_parts(item.text)
+        # logging macros go first (rule R3 would drop them after inlining anyway; their `name = value` fields are not identifiers)
+        from . import rules as _R
+        body = _R.rule_logging(_R.rule_paths(body))
+        body = eliminate_option_try(body, _ret_type(item.text))
         body = eliminate_returns(body)
         bc = Code(body)
         # where the call stands decides whether early exits of the helper keep their meaning once inlined
@@ -394,7 +435,8 @@ def rule_inline(text, helpers, fns, caller_item, caller_owner, caller_generics, 
             endpos = c.end(end + 2)
         start = c.pos(path_start)
         trace.append(name)
-        return (start, endpos, "{ /*inlined:%s*/ %s %s }" % (name, " ".join(lets), body))
+        # parenthesised: a block at the start of an expression statement would otherwise end the statement (`{..} == x`)
+        return (start, endpos, "({ /*inlined:%s*/ %s %s })" % (name, " ".join(lets), body))
 
     def finder(c):
         for k in range(len(c)):
